@@ -308,30 +308,24 @@ fn parse_pkg_dep_line(pkg_dep_line: &str) -> anyhow::Result<ParsedPkgLine> {
         false => (None, s),
         true => {
             // If we have the open bracket, grab everything until the closing bracket.
-            let s = &s["(".len()..];
-            let mut iter = s.split(')');
-            let dep_name = iter
-                .next()
-                .ok_or_else(|| anyhow!("missing closing parenthesis"))?;
             // The rest is the unique package string and possibly the salt.
-            let s = &s[dep_name.len() + ")".len()..];
+            let (dep_name, s) = s["(".len()..]
+                .split_once(')')
+                .ok_or_else(|| anyhow!("missing closing parenthesis"))?;
             (Some(dep_name), s)
         }
     };
 
-    // Check for salt.
-    let mut iter = s.split('(');
-    let pkg_str = iter
-        .next()
-        .ok_or_else(|| anyhow!("missing pkg string"))?
-        .trim();
-    let salt_str = iter.next().map(|s| s.trim()).map(|s| &s[..s.len() - 1]);
-    let salt = match salt_str {
-        Some(salt_str) => Some(
-            fuel_tx::Salt::from_str(salt_str)
-                .map_err(|e| anyhow!("invalid salt in lock file: {e}"))?,
-        ),
-        None => None,
+    // Check for salt: a trailing `(<salt>)`. Note that the package string itself may contain
+    // parentheses (e.g. a git branch name within the source string).
+    let s = s.trim();
+    let (pkg_str, salt) = match s.strip_suffix(')').and_then(|s| s.rsplit_once('(')) {
+        Some((pkg_str, salt_str)) => {
+            let salt = fuel_tx::Salt::from_str(salt_str.trim())
+                .map_err(|e| anyhow!("invalid salt in lock file: {e}"))?;
+            (pkg_str.trim(), Some(salt))
+        }
+        None => (s, None),
     };
 
     Ok((dep_name, pkg_str, salt))
